@@ -66,7 +66,7 @@ theorem C01_append_partial (X : Ctx) (s : St) (es os : List Elem) (other : VSt) 
       have h5 : VM.lift X (len X.env) s1 = (.ok es.length, s1) := lift_read X _ s1 _ (by rw [len_run, hL1])
       have h6 := inb_blk s1 b1 hb1 (es.length + os.length) (by omega)
       rw [hal1] at h6
-      obtain ⟨v2, hw, habs2, hlen2, hcap2, hd2, hal2, hbid2⟩ := write_tail_abs X s1 es os habs1 hd1 hroom
+      obtain ⟨v2, hw, habs2, hlen2, hcap2, hd2, hal2, hbid2, _⟩ := write_tail_abs X s1 es os habs1 hd1 hroom
       simp only [h4, h5, h6, hw]
       -- `other`'s length is zeroed
       have h7 := lift_setHdrLen X 0 { ({ s1 with v := v2 } : St) with v := other } hdo
